@@ -136,6 +136,11 @@ func genReduceCase(r *rand.Rand) reduceCase {
 			c.Cfg = c.Cfg[:1]
 		}
 	}
+	if r.Intn(20) == 0 && n > 0 && n <= 12 {
+		// a row without the aggregated binding (tables built by hand are not checked by AddRow)
+		delete(rows[r.Intn(n)], "?v")
+		c.Class += "+missing"
+	}
 	c.In = renderRows(rows, c.Bindings)
 	tbl := mkTable(c.Bindings, rows)
 	var aaps []table.AliasAccPair
